@@ -13,10 +13,18 @@ TB = ("Trusted base: Lean 4.33 kernel with axioms propext, Classical.choice, Quo
       "generated cases; agreement on unsampled inputs is assumed. ")
 
 CLAIMS = {
+    "C03": dict(
+        text="Lean theorems: on every schema of the shape the draft's metaschema prescribes (Spec.shapedR, references allowed) the evaluator with the REGENERATED draft tables ends only normally, closed early, out of fuel, or with the documented exceptions (RefResolutionError; UnknownType in Draft 3 only; a user format function's own exception when a checker is attached) — never with an undocumented exception — unless a reference met on the way designates a non-schema (guarded_no_crash, guard_simulation, no_crash); for reference-free shaped schemas unconditionally (no_crash_reffree) and it terminates within fuel 2*size+2 (terminates_reffree); is_valid/validate inherit this (entry_points_benign). Tie: VAL/SPEC channels: for every schema check_schema accepts, Spec.shapedR must hold (bridge to the theorems' hypothesis, checked on every generated candidate); monitor: exception class escaping the four entry points, with and without a format checker, on accepted (incl. malformed-but-accepted) schemas x instances incl. huge numbers.",
+        note=TB + "The bridge 'check_schema accepts => shapedR' is sampled (it is C11's subject), not proved. Unguarded reference cycles ({\"$ref\": \"#\"}: undefined by the drafts) and references to non-schemas are outside the domain and recognised by the model (fuel / the guard's marker). A-regex: every regular expression compiles.",
+        ref="6 C03", tech="Lean 4 proof (per-keyword no-crash under a shape predicate; guarded-evaluator simulation) + differential correspondence + crash monitor"),
     "C04": dict(
         text="Lean theorems: budget-prefix law for the whole evaluator (lawful_eval: a consumer taking k errors sees the first k of the exhaustive run), hence is_valid/validate()/iter_errors agree (isValid_spec, validate_spec, take_prefix, entry_points_agree, exhaustive_never_budget); best_match returns a context-free member or descendant (bestMatch_mem, bestMatch_flat). Tie: VAL channel on budgets none/1/2 and MOD channel (jsonschema.validate, validator_for, check_schema, best_match) against the real code; monitor evaluates the relations between the four entry points on the implementation.",
         note=TB + "A-gc: CPython finalises an abandoned generator immediately. The repeat-call clause is monitored, and proved only through C07's state theorems.",
         ref="6 C04", tech="Lean 4 proof (invariant closed under generator combinators) + differential correspondence + relational monitor"),
+    "C06": dict(
+        text="Lean theorems for the four drafts (regenerated tables): every error at top level or in a context locates itself truthfully in the instance — following its relative path from the validated instance reaches the recorded instance, contexts relative to the recorded instance — with the two documented exceptions spelled out (inst_located_drafts; for arbitrary user classes under the explicit hypothesis that propertyNames is bound under its own name, with a machine-checked counterexample otherwise); for reference-free schemas the keyword is the last element of the schema path, the recorded subschema holds the recorded value and the absolute schema path reaches it (schema_located_reffree); absolute paths compose (closure_paths, closure_head); nothing is left unset (info_set). Tie: VAL channel comparing full error records (paths, keyword, value, instance, schema, contexts); monitor navigates instance and schema (hopping through $ref with a resolver) for every error in the closure on the implementation, incl. json_path.",
+        note=TB + "Schema-path navigation through $ref hops is monitored, not proved (the theorem covers reference-free schemas). json_path rendering is checked by the monitor only.",
+        ref="6 C06", tech="Lean 4 proof (locatedness preserved by every applicator's path elements) + differential correspondence + navigation monitor"),
     "C07": dict(
         text="Lean theorem scope_restore: for every schema, instance, fuel, budget (early close/drop) and stop reason the resolver's scope stack after an evaluation equals the one before; resolve never touches it. Tie: HIST channel (histories of is_valid/exhaust/validate/take+close/take+drop/resolve on one validator, failing handlers) compared op by op incl. scope stack, store keys and fetch log. Non-modification of instance/schema/store and history independence (vs a fresh validator) are decided by the monitor on the implementation.",
         note=TB + "A-gc; A-handlers (one fixed document per URI). Partial: in-place mutation and the timing of generator finalisation cannot be exhibited by a functional model and are monitored, not proved; history independence is monitored (its proof needs C15's memo transparency, in progress).",
